@@ -82,5 +82,35 @@ pub fn pos_item(item: &Value) -> Value {
             }
         }
     }
-    json!({"id": id, "outcome": "Ok", "to": to, "from": from, "ranges": ranges})
+    // one LineIndex shared by several threads (as the tasks of one revision share the memoised one): every conversion must give
+    // what a thread of its own gives
+    let mut races = 0u64;
+    if item.get("concurrent").and_then(|x| x.as_bool()).unwrap_or(false) {
+        let bounds: Vec<u32> = (0..=text.len()).filter(|&i| text.is_char_boundary(i)).map(|i| i as u32).collect();
+        let seq: Vec<(u32, u32)> = bounds.iter().map(|&o| { let p = lsp::to_proto::position(&li, TextSize::from(o)); (p.line, p.character) }).collect();
+        let shared = std::sync::Arc::new(LineIndex::new(&text));
+        let bounds = std::sync::Arc::new(bounds);
+        let seq = std::sync::Arc::new(seq);
+        let mut hs = Vec::new();
+        for t in 0..8u64 {
+            let (shared, bounds, seq) = (shared.clone(), bounds.clone(), seq.clone());
+            hs.push(std::thread::spawn(move || {
+                let mut bad = 0u64;
+                let mut x = 0x9E3779B97F4A7C15u64.wrapping_mul(t + 1);
+                for _ in 0..40_000 {
+                    x ^= x << 13; x ^= x >> 7; x ^= x << 17;
+                    let k = (x % bounds.len() as u64) as usize;
+                    let p = lsp::to_proto::position(&shared, TextSize::from(bounds[k]));
+                    if (p.line, p.character) != seq[k] {
+                        bad += 1;
+                    }
+                }
+                bad
+            }));
+        }
+        for h in hs {
+            races += h.join().unwrap_or(1);
+        }
+    }
+    json!({"id": id, "outcome": "Ok", "to": to, "from": from, "ranges": ranges, "races": races})
 }
